@@ -44,6 +44,14 @@ var Properties = map[string]PropertyDef{
 		}
 		return c
 	}},
+	"C14": {Cases: C14Cases, Config: func(tier string) Config {
+		return Config{
+			Functions: []string{"algebra/impl.MultiScalarMulLowLevel (naive path n≤7, Pippenger path with window w = bitlen(n), bucket accumulation, window extraction)", "algebra/impl.ScalarMulLowLevel (4-bit fixed window)"},
+			Bounds:    map[string]any{"points": "n symbolic points of the model group, n ∈ {1,2,7,8,9,16,33,100,255,256,600,1023,1024,1100} (thorough: up to 5000, window sizes up to 13)", "scalars": "CONCRETE corpus per case: 32-byte and 5-byte little-endian values — random full-width, all-ones, single high bits, short — so every window position and every (start mod 8, w) combination that occurs is exercised; the verdict is for all points, not for all scalars"},
+			Assumes:   []string{"the skeletons only use the low-level group interface (Add, Double, Set, SetZero, Select, Equal, IsZero); an adapter maps it onto the model group", "genericity: a bucket that received at least one symbolic point is not the identity (the skip branch of the running sum is exercised by the empty buckets only)"},
+			Outside:   []string{"symbolic scalar bytes (E2 executes byte code concretely)", "window sizes 14–16 (n ≥ 8192)", "the per-curve wrappers that convert scalars to bytes"},
+		}
+	}},
 	"C12": {Cases: C12Cases, Config: func(tier string) Config {
 		return Config{
 			Functions: []string{"serde.MarshalCBOR/UnmarshalCBOR (fxamacker/cbor strict mode, run natively)", "kw.Share / shamir.Share / feldman.LiftedShare / pedersen.Share / polynomials.Polynomial UnmarshalCBOR → constructors", "mat.Matrix / ModuleValuedMatrix / SquareMatrix UnmarshalCBOR", "msp.MSP.UnmarshalCBOR → NewMSP", "feldman.VerificationVector.UnmarshalCBOR → NewVerificationVector", "mpc.BasePublicMaterial.UnmarshalCBOR → NewBasePublicMaterial", "mpc.BaseShard.UnmarshalCBOR → NewBaseShard (share must lift to its public share)", "pedersencom.CommitmentKey/TrapdoorKey.UnmarshalCBOR", "elgamal.PublicKey/SecretKey.UnmarshalCBOR", "schnorrlike.PublicKey.UnmarshalCBOR"},
